@@ -128,6 +128,20 @@ class Part:
         self.notes = list(dict.fromkeys(self.notes + other.notes))
 
 
+def guard(run_case, case, part):
+    """Run one case; an exception escaping the check while it examines what the implementation returned is reported as
+    a violation of that case (the clean tree is verified to be quiet, and every violation is re-run before it is reported)."""
+    try:
+        run_case(case, part)
+    except (KeyboardInterrupt, SystemExit):
+        raise
+    except BaseException as e:  # noqa
+        if type(e).__name__ == "HarnessDivergence":
+            raise
+        part.violation(case if isinstance(case, dict) else {"case": repr(case)[:500]},
+                       f"examining this case failed with {type(e).__name__}: {str(e)[:300]} | {traceback.format_exc()[-500:]}")
+
+
 def _run_shard(args):
     func, shard, kw = args
     try:
@@ -271,6 +285,9 @@ class Check:
             "caps_hit": self.caps,
             "known_findings_seen": {k: v["count"] for k, v in t.known.items()},
         }
+        if not cov["samples"]:
+            # nothing was recorded as a sample (e.g. every case ended in a violation): show the first cases seen
+            cov["samples"] = [jsonable({"case": v.get("case"), "outcome": "violation"}) for v in viols[:2]] or [{"note": "no case completed"}]
         if self.level == "model_checking":
             cov["states"] = int(t.states)
             cov["transitions"] = int(t.transitions)
